@@ -36,6 +36,15 @@ pub enum Cmd<T> {
 }
 
 impl<T> Cmd<T> {
+    pub fn map_unit(self) -> Cmd<()> {
+        match self {
+            Cmd::Ok(_) => Cmd::Ok(()),
+            Cmd::Err(e) => Cmd::Err(e),
+            Cmd::Panic(p) => Cmd::Panic(p),
+            Cmd::NoProgress => Cmd::NoProgress,
+            Cmd::Harness(h) => Cmd::Harness(h),
+        }
+    }
     pub fn is_ok(&self) -> bool {
         matches!(self, Cmd::Ok(_))
     }
